@@ -4,6 +4,7 @@ C10 — a container reads the same however its packs are packaged.
 -/
 import JubakoModel.Model.Container
 import JubakoModel.Lemmas.Container
+import JubakoModel.Lemmas.FuncsLookup
 
 namespace Jubako
 
@@ -112,5 +113,21 @@ where
         | cons x xs => simp [slice, List.take_succ_cons]
       · simp [h2] at h
     · rw [if_neg h1] at h; cases h
+
+/-! ### Tie to the source: the lookup chain -/
+
+/-- **"Packs are looked for by identity inside the file at hand first and then through their recorded
+    location" is the body of `ChainedLocator::locate` as translated from `reader/locator.rs` on every run**:
+    the translated loop terminates for every chain and answers with the first locator, in chain order, that
+    finds the pack; the reader model's `locate` is that chain over [the packs of the file at hand, the file
+    at the recorded location]. -/
+theorem c10_lookup_chain_is_source_chain :
+    (∀ {α : Type} (answers : List (Option α)), Generated.chainedLocate answers = some (answers.findSome? id)) ∧
+    (∀ (fs : FS) (entryFile : String) (entryPacks : List PackAt) (uuid : Bytes) (location : String)
+        (r : Option Located), fsLocate fs uuid location = .ok r →
+      Outcome.ok <$> Generated.chainedLocate
+          [(entryPacks.find? (fun p => p.uuid == uuid)).map (fun p => (⟨entryFile, p⟩ : Located)), r] =
+        some (locate fs entryFile entryPacks uuid location)) :=
+  ⟨fun a => gen_chainedLocate a, locate_is_chain⟩
 
 end Jubako
